@@ -227,7 +227,9 @@ MalGuards(c, e) ==
     { \* a malformed resource name is rejected with INVALID_ARGUMENT
       G("C17", MalformedName(p) => e.code = "INVALID_ARGUMENT"),
       \* a rejected request changes no state
-      G("C17", (Solo(c) /\ e.code = "INVALID_ARGUMENT") => ~ChangesState(W)),
+      \* (not judged while a push loop runs beside the clients: its own pulls, acks and nacks fall into
+      \* any call's window)
+      G("C17", (Solo(c) /\ e.code = "INVALID_ARGUMENT" /\ JudgeLate) => ~ChangesState(W)),
       \* never a broken connection
       G("C17", Solo(c) => e.code \notin {"UNAVAILABLE", "UNKNOWN", "CANCELLED"}),
       \* page tokens: undecodable ones are rejected, decodable ones (issued or not) give a page
@@ -248,7 +250,7 @@ RetGuards(c, e) ==
       [] p.op = "Other" ->
         \* an RPC the emulator does not implement: whatever status it is answered with (the broken
         \* connection is judged in MalGuards), a request that is not carried out changes nothing
-        { G("C17", (Solo(c) /\ e.code # "OK") => ~ChangesState(W)) }
+        { G("C17", (Solo(c) /\ e.code # "OK" /\ JudgeLate) => ~ChangesState(W)) }
       [] p.op = "GetTopic" ->
         { G("C10", e.code \in {"OK", "NOT_FOUND"}),
           G("C10", e.code = "OK" => ((TopicLookups(W, p.name) \ {None} # {}) /\ e.body.name = p.name)),
@@ -686,9 +688,18 @@ AbandonedNear(si) ==
 \* C11: "after DeleteTopic the topic's subscriptions keep serving the messages they already hold": a
 \* loss in a turn of a subscription whose topic was deleted counts for C11 as well.
 Orphaned(si) == S[si].topic \in DOMAIN T /\ T[S[si].topic].deleted
+\* C02: "the acknowledgement touches nothing else ... every other subscription's copy of the same
+\* message keeps its state": a loss in an expiry / modify turn that concerns a message which was
+\* acknowledged on ANOTHER subscription counts for C02 as well.
+TurnAcks(e) == IF e.k = "s.expire" THEN SeqSet(e.acks)
+               ELSE IF e.k = "s.mod" THEN {e.mods[i].ack : i \in 1..Len(e.mods)} ELSE {}
+AckedElsewhere(e) ==
+    \E a \in TurnAcks(e) : a \in DOMAIN S[e.si].lease /\
+        \E si2 \in DOMAIN S \ {e.si} : S[e.si].lease[a].m \in S[si2].acked
 Retag16(e, gs) ==
     IF e.k \in {"s.post", "s.pull", "s.ack", "s.mod", "s.expire"} /\ SiKnown(e)
     THEN LET extra == (IF AbandonedNear(e.si) THEN ",C16" ELSE "") \o (IF Orphaned(e.si) THEN ",C11" ELSE "")
+                      \o (IF AckedElsewhere(e) THEN ",C02" ELSE "")
          IN IF extra = "" THEN gs
             ELSE {IF g[1] \in {"C01", "C04", "C01,C04", "C01,C04,C05"} THEN <<g[1] \o extra, g[2]>> ELSE g : g \in gs}
     ELSE gs
